@@ -43,6 +43,40 @@ func main() {
 		os.Exit(2)
 	}
 	files, sites := 0, 0
+	// callees of `go x.m(...)` / `go f(...)` statements, per directory: they are registered at the
+	// top of their body (the hand-written hooks do the same for pull and start)
+	goCallees = map[string]map[string]bool{}
+	_ = filepath.Walk(root, func(p string, fi os.FileInfo, err error) error {
+		if err != nil || fi.IsDir() || !strings.HasSuffix(p, ".go") || strings.HasSuffix(p, "_test.go") {
+			return nil
+		}
+		f, err := parser.ParseFile(token.NewFileSet(), p, nil, 0)
+		if err != nil {
+			return nil
+		}
+		ast.Inspect(f, func(n ast.Node) bool {
+			g, ok := n.(*ast.GoStmt)
+			if !ok {
+				return true
+			}
+			name := ""
+			switch fn := g.Call.Fun.(type) {
+			case *ast.SelectorExpr:
+				name = "." + fn.Sel.Name
+			case *ast.Ident:
+				name = fn.Name
+			}
+			if name != "" {
+				d := filepath.Dir(p)
+				if goCallees[d] == nil {
+					goCallees[d] = map[string]bool{}
+				}
+				goCallees[d][name] = true
+			}
+			return true
+		})
+		return nil
+	})
 	err := filepath.Walk(root, func(p string, fi os.FileInfo, err error) error {
 		if err != nil {
 			return err
@@ -88,6 +122,8 @@ func modulePath(gomod string) string {
 	}
 	return ""
 }
+
+var goCallees map[string]map[string]bool
 
 type rewriter struct {
 	fset *token.FileSet
@@ -170,6 +206,29 @@ func hasRecv(nodes ...ast.Node) bool {
 	return found
 }
 
+// registers: the function literal starts with `defer verifhook.Go(...)()`.
+func registers(fl *ast.FuncLit) bool { return registersBody(fl.Body) }
+
+func registersBody(b *ast.BlockStmt) bool {
+	if len(b.List) == 0 {
+		return false
+	}
+	d, ok := b.List[0].(*ast.DeferStmt)
+	if !ok {
+		return false
+	}
+	inner, ok := d.Call.Fun.(*ast.CallExpr)
+	if !ok {
+		return false
+	}
+	sel, ok := inner.Fun.(*ast.SelectorExpr)
+	if !ok || sel.Sel.Name != "Go" {
+		return false
+	}
+	id, ok := sel.X.(*ast.Ident)
+	return ok && id.Name == "verifhook"
+}
+
 func (r *rewriter) stmt(s ast.Stmt) {
 	switch s := s.(type) {
 	case *ast.IfStmt:
@@ -189,6 +248,7 @@ func (r *rewriter) stmt(s ast.Stmt) {
 		}
 	case *ast.SendStmt:
 		r.before(s)
+		r.after(s) // the receiver is runnable now
 	case *ast.ExprStmt:
 		if isRecv(s.X) {
 			r.before(s)
@@ -203,6 +263,7 @@ func (r *rewriter) stmt(s ast.Stmt) {
 		switch {
 		case !isSel && name == "close" && len(call.Args) == 1:
 			r.before(s)
+			r.after(s) // every receiver is runnable now
 		case isSel && (name == "Lock" || name == "RLock") && len(call.Args) == 0:
 			r.before(s)
 			r.add(s.End(), "; "+quietOn)
@@ -245,6 +306,10 @@ func (r *rewriter) stmt(s ast.Stmt) {
 		r.before(s)
 	case *ast.GoStmt:
 		r.after(s)
+		// a goroutine the tree starts without registering it would run outside the scheduler
+		if fl, ok := s.Call.Fun.(*ast.FuncLit); ok && !registers(fl) {
+			r.add(fl.Body.Lbrace+1, fmt.Sprintf(" defer %s.Go(\"auto.go:%s:%d\", 0)();", alias, r.rel, r.fset.Position(s.Pos()).Line))
+		}
 	case *ast.DeferStmt:
 		name, call := methodName(s.Call)
 		if call == nil {
@@ -290,8 +355,18 @@ func rewrite(path, rel, mod string) (int, error) {
 		return 0, err
 	}
 	r := &rewriter{fset: fset, rel: filepath.ToSlash(rel)}
+	callees := goCallees[filepath.Dir(path)]
 	ast.Inspect(f, func(n ast.Node) bool {
 		switch n := n.(type) {
+		case *ast.FuncDecl:
+			key := n.Name.Name
+			if n.Recv != nil {
+				key = "." + key
+			}
+			if n.Body != nil && callees[key] && !registersBody(n.Body) {
+				r.add(n.Body.Lbrace+1, fmt.Sprintf(" defer %s.Go(\"auto.go:%s:%s\", 0)();", alias, r.rel, n.Name.Name))
+				r.n++
+			}
 		case *ast.BlockStmt:
 			r.list_(n.List)
 		case *ast.CaseClause:
